@@ -292,3 +292,48 @@ V("C18", "xtc-len-scan-without-restore", "mdtraj/formats/xtc/xtc.pyx", "        
   "C18-R6", "XTCTrajectoryFile._calc_len_and_offsets")
 V("C18", "twin-plus-equals-rewritten", "mdtraj/formats/netcdf.py", "            self._frame_index = self._frame_index + offset", "            self._frame_index += offset", None)
 V("C18", "twin-commuted", "mdtraj/formats/hdf5.py", "            self._frame_index = self._frame_index + offset", "            self._frame_index = offset + self._frame_index", None)
+
+# ---------------------------------------------------------------- C02
+V("C02", "load_dcd-drops-stride", "mdtraj/formats/dcd/dcd.pyx", "        return f.read_as_traj(topology, n_frames=n_frames, stride=stride, atom_indices=atom_indices)",
+  "        return f.read_as_traj(topology, n_frames=n_frames, atom_indices=atom_indices)", "C02-R1", "load_dcd")
+V("C02", "load_xyz-frame-not-sought", "mdtraj/formats/xyzfile.py", "        if frame is not None:\n            f.seek(frame)\n            n_frames = 1",
+  "        if frame is not None:\n            n_frames = 1", "C02-R1", "load_xyz")
+V("C02", "xtc-read_as_traj-drops-atom_indices", "mdtraj/formats/xtc/xtc.pyx", "        xyz, time, step, box = self.read(n_frames=n_frames, stride=stride, atom_indices=atom_indices)",
+  "        xyz, time, step, box = self.read(n_frames=n_frames, stride=stride)", "C02-R1", "XTCTrajectoryFile.read_as_traj")
+V("C02", "gro-read_as_traj-drops-n_frames-again", "mdtraj/formats/gro.py", "            n_frames=n_frames,\n            stride=stride,\n            atom_indices=atom_indices,\n        )\n        if len(coordinates) == 0:",
+  "            stride=stride,\n            atom_indices=atom_indices,\n        )\n        if len(coordinates) == 0:", "C02-R1", "GroTrajectoryFile.read_as_traj")
+V("C02", "nc-window-not-scaled", "mdtraj/formats/netcdf.py", "        elif stride is not None:\n            # 'n_frames' frames should be read in total\n            n_frames *= stride\n", "", "C02-R2", "NetCDFTrajectoryFile.read")
+V("C02", "h5-window-not-scaled-again", "mdtraj/formats/hdf5.py", "            # n_frames counts the frames returned, so stride times as many are consumed\n            n_frames *= stride\n\n        total_n_frames = len(self._handle.root.coordinates)",
+  "\n        total_n_frames = len(self._handle.root.coordinates)", "C02-R2", "HDF5TrajectoryFile.read")
+V("C02", "mdcrd-skip-loop-off-by-one", "mdtraj/formats/mdcrd.py", "            for j in range(stride - 1):\n                # throw away these frames\n                try:\n                    self._read()",
+  "            for j in range(stride):\n                # throw away these frames\n                try:\n                    self._read()", "C02-R2", "MDCRDTrajectoryFile.read")
+V("C02", "h5-cursor-advances-by-returned", "mdtraj/formats/hdf5.py", "        self._frame_index += frame_slice.stop - frame_slice.start", "        self._frame_index += len(frames.coordinates)",
+  "C02-R3", "HDF5TrajectoryFile.read")
+V("C02", "xyz-time-loses-initial", "mdtraj/formats/xyzfile.py", "        time = (stride * np.arange(len(xyz))) + initial", "        time = stride * np.arange(len(xyz))", "C02-R4", "XYZTrajectoryFile.read_as_traj")
+V("C02", "dcd-time-ignores-stride", "mdtraj/formats/dcd/dcd.pyx", "        time = (stride*np.arange(len(xyz))) + initial", "        time = np.arange(len(xyz)) + initial", "C02-R4", "DCDTrajectoryFile.read_as_traj")
+V("C02", "lammps-initial-after-read", "mdtraj/formats/lammpstrj.py", """        initial = int(self._frame_index)
+        xyz, cell_lengths, cell_angles = self.read(
+            n_frames=n_frames,
+            stride=stride,
+            atom_indices=atom_indices,
+        )""", """        xyz, cell_lengths, cell_angles = self.read(
+            n_frames=n_frames,
+            stride=stride,
+            atom_indices=atom_indices,
+        )
+        initial = int(self._frame_index)""", "C02-R4", "LAMMPSTrajectoryFile.read_as_traj")
+V("C02", "pdb-time-times-frame-again", "mdtraj/formats/pdb/pdbfile.py", "        time += frame", "        time *= frame", "C02-R4", "load_pdb")
+V("C02", "mdcrd-topology-not-subset", "mdtraj/formats/mdcrd.py", "        if atom_indices is not None:\n            topology = topology.subset(atom_indices)\n\n        initial = int(self._frame_index)\n        xyz, cell_lengths",
+  "        initial = int(self._frame_index)\n        xyz, cell_lengths", "C02-R5", "MDCRDTrajectoryFile.read_as_traj")
+V("C02", "arc-returns-full-topology-again", "mdtraj/formats/arc.py", "            xyz=xyz,\n            topology=topology,\n            time=time,", "            xyz=xyz,\n            topology=self.topology,\n            time=time,",
+  "C02-R5", "ArcTrajectoryFile.read_as_traj")
+V("C02", "iterload-no-seek-skip", "mdtraj/core/trajectory.py", "            if skip > 0:\n                f.seek(skip)\n", "", "C02-R6", "iterload")
+V("C02", "iterload-chunk0-drops-stride", "mdtraj/core/trajectory.py", "        yield load(filename, atom_indices=atom_indices, **kwargs)[skip::stride]", "        yield load(filename, atom_indices=atom_indices, **kwargs)[skip:]",
+  "C02-R6", "iterload")
+V("C02", "load-list-drops-kwargs", "mdtraj/core/trajectory.py", "        t = loader(f, **kwargs)\n\n        t.topology = None", "        t = loader(f)\n\n        t.topology = None", "C02-R6", "load")
+V("C02", "twin-time-commuted", "mdtraj/formats/xyzfile.py", "        time = (stride * np.arange(len(xyz))) + initial", "        time = initial + (np.arange(len(xyz)) * stride)", None)
+V("C02", "twin-positional-args", "mdtraj/formats/netcdf.py", """        xyz, time, cell_lengths, cell_angles = self.read(
+            n_frames=n_frames,
+            stride=stride,
+            atom_indices=atom_indices,
+        )""", """        xyz, time, cell_lengths, cell_angles = self.read(n_frames, stride, atom_indices)""", None)
